@@ -21,7 +21,11 @@ const FILES: [&str; 9] = ["index.html", "a.html", "a.txt", "ab.txt", "b.css", "x
 fn mime_of(name: &str) -> &'static str {
     match name.rsplit('.').next().unwrap() {
         "html" => "text/html", "txt" => "text/plain", "css" => "text/css", "js" => "text/javascript",
-        "png" => "image/png", "json" => "application/json", _ => "?",
+        "png" => "image/png", "json" => "application/json",
+        // the other extensions the framework serves (IANA media types, written here independently of ohkami_lib::mime)
+        "xml" => "text/xml", "csv" => "text/csv", "tsv" => "text/tab-separated-values", "vcard" => "text/vcard",
+        "jpeg" => "image/jpeg", "gif" => "image/gif", "svg" => "image/svg+xml", "woff" => "font/woff", "woff2" => "font/woff2", "pdf" => "application/pdf",
+        _ => "?",
     }
 }
 
@@ -267,6 +271,15 @@ pub fn run(ctx: &mut Ctx) {
             } }
         }
     }
+    // "with the Content-Type of its extension": one tree holding a file of every supported extension (the trees above use six)
+    for (oi, omit) in omits.iter().enumerate() { for mount in mounts.iter() {
+        if !ctx.mine() { continue }
+        let _ = oi;
+        let exts = ["txt", "html", "css", "js", "xml", "csv", "tsv", "vcard", "jpeg", "gif", "png", "svg", "woff", "woff2", "json", "pdf"];
+        let c = Config { entries: exts.iter().enumerate().map(|(i, e)| (if i % 2 == 0 { "".to_string() } else { "d".to_string() }, format!("f{i}.{e}"))).collect(),
+            omit: omit.clone(), mount: mount.to_string(), param_sibling: false, symlink_outside: false, mutate_after_mount: false };
+        check_config(ctx, &c, None);
+    } }
     ctx.extra.insert("rule".into(), json!("case = (directory tree on disk, omit_extensions, mount route, variant {plain, sibling param route, symlink to an outside file, files modified/deleted/added after mounting}, request); non-trivial = every case (each request is compared with the path->(bytes,mime) map of the tree); collision = requests built to hit a shortcut: trailing slash / HEAD on a file, traversal and encoded/doubled separators, paths of outside files, requests next to a sibling param route"));
     ctx.extra.insert("bounds".into(), json!({"dirs": DIRS, "files": FILES, "entries_per_tree": max_entries, "omit": omits, "mounts": mounts, "variants": 4,
         "thinning": if quick { "none (all single entries and all pairs, all variants)" } else { "none (all single entries, pairs and triples, all variants)" }}));
